@@ -6,9 +6,12 @@ import (
 	"encoding/binary"
 	"fmt"
 	"io"
+	"strings"
 
 	lz4 "github.com/pierrec/lz4/v4"
 )
+
+var hdReuse *lz4.Reader
 
 func init() {
 	extraOps["HD"] = implHD
@@ -73,6 +76,16 @@ func implHD(f []string, o *oracleSink) string {
 			}
 			if rOK {
 				sizeSeen = fmt.Sprint(uint64(zr.Size()))
+				// the same through a long-lived Reader reused with Reset (its previous frame may have had a size)
+				if hdReuse == nil {
+					hdReuse = lz4.NewReader(bytes.NewReader(full))
+				} else {
+					hdReuse.Reset(bytes.NewReader(full))
+				}
+				_, e2 := hdReuse.Read(make([]byte, 16))
+				if (e2 != nil && e2 != io.EOF) || fmt.Sprint(uint64(hdReuse.Size())) != sizeSeen {
+					incons += fmt.Sprintf("reused-reader:size=%d/err=%s ", uint64(hdReuse.Size()), errName(e2))
+				}
 			} else {
 				incons += fmt.Sprintf("vfh-ok-but-read=%s@%d ", errName(rerr), c)
 			}
@@ -132,7 +145,10 @@ func implHD(f []string, o *oracleSink) string {
 	exp := fmt.Sprintf("acc=%s wrong=%s size=%s", expAcc, expWrong, expSize)
 	note := "hdr=ok"
 	if res != exp {
-		note = "HDR-MISMATCH:expected[" + exp + "]"
+		note = "HDR-MISMATCH:expected[" + strings.ReplaceAll(exp, " ", "_") + "]"
+	}
+	if incons != "consistent" {
+		note += " HDR-MISMATCH:inconsistent[" + strings.ReplaceAll(strings.TrimSpace(incons), " ", "_") + "]"
 	}
 	return fmt.Sprintf("%s ; %s ; %s notes", res, incons, note)
 }
